@@ -40,7 +40,7 @@ def signature(lines):
     return "not_linearizable" + ("[" + ",".join(sorted(odd)) + "]" if odd else "")
 
 
-def run(prop, tier, seed, plan, replay_dir=None, merge=False, full=False):
+def run(prop, tier, seed, plan, replay_dir=None, merge=False, full=False, only_longadd=False):
     """merge=True: the property's main evidence file exists already (written by the scenario engine); add to it"""
     t0 = time.time()
     tmp = engines.scratch()
@@ -67,6 +67,8 @@ def run(prop, tier, seed, plan, replay_dir=None, merge=False, full=False):
         passes = ([(sd, "lin", "LinTrace", nprog, []) for sd in seeds]
                   + [(sd, "sched", "SchedTrace", nsched - nsched // 3, ["-mode", "sched"]) for sd in seeds]
                   + [(sd, "sched2", "SchedTrace_cap2", nsched // 3, ["-mode", "sched", "-cap", "2"]) for sd in seeds])   # the same with a buffered Watcher
+        if only_longadd:      # only the programs in which Close meets a long-running Add (judged by LinTrace and the fresh-Watcher census)
+            passes = [(sd, "longadd", "LinTrace", 40 if tier == "quick" else 400, ["-mode", "longadd"]) for sd in seeds]
         if replay_dir:
             which = meta.get("pass", "lin")
             passes = [x for x in passes if x[1] == which]
@@ -120,8 +122,10 @@ def run(prop, tier, seed, plan, replay_dir=None, merge=False, full=False):
                     props |= {"C05"}
                     if "close" in cause or "channels_not_closed" in cause:
                         props |= {"C06", "C13"}      # a Close that never returns releases nothing
-                if "closed channel" in cause:
-                    props |= {"C06"}
+                if "foreign_kernel_watches" in cause:
+                    props |= {"C12", "C13", "C06"}      # an Add outlived Close and put its watches into the next Watcher's instance
+                if "closed channel" in cause or "racing_close" in cause:
+                    props |= {"C06"}      # a call concurrent with Close must answer ErrClosed / nil, not with an error of the closed descriptor
                 if prop not in props:
                     # not this property's business, but never silently dropped: the history is kept for inspection
                     nd = os.path.join(HERE, "replays", "note-%s-%s-%d-%d" % (prop, pname, sd, idx))
